@@ -14,6 +14,8 @@ import (
 	"regexp"
 	"strconv"
 	"strings"
+	"sync"
+	"sync/atomic"
 	"time"
 
 	macaroon "gopkg.in/macaroon.v2"
@@ -1365,4 +1367,121 @@ func init() {
 	vfRapid("C20/expiry", c20Rule, 300, 8000, 2, c20GenCase(c20OpsExpiry), c20Check)
 	vfEnum("C20/realtime", c20Rule, 2, 4, 1, c20RTEnum, c20RTCheck)
 	vfEnum("C20/boundary", c20BoundaryRule, 2, 4, 1, c20BDEnum, c20BDCheck)
+}
+
+// ---------------------------------------------------------------------------------------------
+// C20/concurrent-issue — several goroutines issue tokens at the same time (a login endpoint under
+// load), each for its own user and its own duration. Every token is then examined on its own:
+// it validates under the key for the user it was issued for, for nobody else of the batch, names
+// that user, and its expiry caveat is the issue instant plus ITS requested duration (the issue
+// instant bracketed by two clock reads around the whole batch).
+
+type c20ConcCase struct {
+	Secret    vfBytes `json:"secret"`
+	Server    string  `json:"server"`
+	Routines  int     `json:"routines"`
+	PerG      int     `json:"per_goroutine"`
+	Durations []int   `json:"durations"` // one per goroutine (0 = default)
+}
+
+func c20ConcGen(t *rapid.T) c20ConcCase {
+	c := c20ConcCase{Secret: c20GenSecret(t, "secret"), Server: rapid.SampledFrom(c20Servers).Draw(t, "server"),
+		Routines: rapid.IntRange(2, 8).Draw(t, "routines"), PerG: rapid.IntRange(1, 12).Draw(t, "perG")}
+	for i := 0; i < c.Routines; i++ {
+		c.Durations = append(c.Durations, rapid.SampledFrom([]int{0, 1, 60, 120, 3600, 1000100, 3000100, 86400 * 365}).Draw(t, "duration"))
+	}
+	return c
+}
+
+func c20ConcCheck(ctx *vfCtx, c c20ConcCase) {
+	if len(c.Secret) == 0 || c.Routines < 2 {
+		ctx.Unjudged("generator: empty secret (issue refuses it)")
+		return
+	}
+	type issued struct {
+		g    int
+		user string
+		tok  string
+		err  error
+	}
+	out := make([][]issued, c.Routines)
+	var wg sync.WaitGroup
+	start := make(chan struct{})
+	var panicked atomic.Value
+	t0 := time.Now().Unix()
+	for g := 0; g < c.Routines; g++ {
+		wg.Add(1)
+		go func(g int) {
+			defer wg.Done()
+			defer func() {
+				if r := recover(); r != nil {
+					panicked.Store(fmt.Sprint(r))
+				}
+			}()
+			<-start
+			for i := 0; i < c.PerG; i++ {
+				user := fmt.Sprintf("@user%d_%d:%s", g, i, c.Server)
+				tok, err := GenerateLoginToken(TokenOptions{ServerPrivateKey: c.Secret, ServerName: c.Server, UserID: user, Duration: c.Durations[g]})
+				out[g] = append(out[g], issued{g: g, user: user, tok: tok, err: err})
+			}
+		}(g)
+	}
+	close(start)
+	wg.Wait()
+	t1 := time.Now().Unix()
+	if p := panicked.Load(); p != nil {
+		ctx.Fail("C20/concurrent-issue/panic", "GenerateLoginToken panicked under concurrent use: %v", p)
+		return
+	}
+	ctx.NonTrivial()
+	ctx.Class(fmt.Sprintf("routines=%d", c.Routines))
+	for g := range out {
+		for i, is := range out[g] {
+			if is.err != nil {
+				ctx.Fail("C20/concurrent-issue/issue-error", "goroutine %d token %d: %v", g, i, is.err)
+				return
+			}
+			if ok, _ := c20Validate(ctx, c.Secret, c.Server, is.user, is.tok); !ok && c20EffDur(c.Durations[g]) > 5 {
+				ctx.Fail("C20/concurrent-issue/valid-refused", "a token issued while %d goroutines were issuing does not validate for the user it was issued for (%s, duration %d)", c.Routines, is.user, c.Durations[g])
+				return
+			}
+			other := out[(g+1)%len(out)][0].user
+			if ok, _ := c20Validate(ctx, c.Secret, c.Server, other, is.tok); ok {
+				ctx.Fail("C20/concurrent-issue/wrong-user-accepted", "a token issued for %s validates for %s", is.user, other)
+				return
+			}
+			if u, err := GetUserFromToken(is.tok); err != nil || u != is.user {
+				ctx.Fail("C20/concurrent-issue/user-differs", "GetUserFromToken = %q (%v), issued for %q", u, err, is.user)
+				return
+			}
+			m, _, err := c20Decode(is.tok)
+			if err != nil {
+				ctx.Fail("C20/concurrent-issue/undecodable", "issued token does not decode: %v", err)
+				return
+			}
+			if !c20VerifiesUnder(m, c.Secret) {
+				ctx.Fail("C20/concurrent-issue/signature", "the token's caveats are not what its signature covers (issued for %s while %d goroutines were issuing)", is.user, c.Routines)
+				return
+			}
+			for _, cv := range c20Cavs(m) {
+				if !strings.HasPrefix(string(cv.id), c20TimePrefix) {
+					continue
+				}
+				v, perr := strconv.ParseInt(strings.TrimPrefix(string(cv.id), c20TimePrefix), 10, 64)
+				if perr != nil {
+					ctx.Fail("C20/concurrent-issue/expiry-unreadable", "expiry caveat %q", cv.id)
+					return
+				}
+				d := c20EffDur(c.Durations[g])
+				if v < t0+d || v > t1+d {
+					ctx.Fail("C20/concurrent-issue/expiry-of-another-request", "goroutine %d asked for %d s between %d and %d; its token expires at %d (+%d s)", g, d, t0, t1, v, v-t0)
+					return
+				}
+			}
+		}
+	}
+}
+
+func init() {
+	vfRapid("C20/concurrent-issue", "every case: 2..8 goroutines issue 1..12 tokens each at the same time, for distinct users and durations; distinct = distinct Case JSON", 150, 4000, 2, c20ConcGen, c20ConcCheck)
 }
